@@ -86,7 +86,7 @@ def family(tier, rnd):
     c8 = c08.family("quick", rnd)
     P += [p for p in c8 if p["tag"] in ("args-nested", "chain-calls", "chain-stmt", "chain-builtin", "this-restored-after-nested", "ctor-args", "mutual-7", "objects-isolated")]
     P += rnd.sample([p for p in c8 if p["tag"].startswith("random-")], 8 if tier == "quick" else 120)
-    c9 = c09.family("quick", rnd)
+    c9 = [p for p in c09.family("quick", rnd) if not p.get("mods")]      # multi-file programs are rendered file by file: not a C03 input
     P += rnd.sample(c9, 10 if tier == "quick" else 150)
     sk = list(c02.blocks(4, False, 3))
     for s_ in rnd.sample(sk, 12 if tier == "quick" else 200):
